@@ -597,6 +597,37 @@ fn run_watched(report: &Report, args: Vec<String>) {
     let _ = child.wait();
     let saw_summary = report.absorb_worker_output(&collected);
     if hung {
+        // confirm on its own, with four times the budget: under heavy machine load a legitimate
+        // step can exceed the watchdog; a query that loops forever does so again
+        let hist = last_begin["history"].as_array().map(|a| a.iter().filter_map(|v| v.as_str()).collect::<Vec<_>>().join(",")).unwrap_or_default();
+        if !hist.is_empty() && !args.iter().any(|a| a.starts_with("history=")) {
+            let exe = std::env::current_exe().expect("exe");
+            let mut confirm = Command::new(exe)
+                .args(["c04", "--tier", report.opts.tier.as_str(), &format!("history={hist}")])
+                .env("VC_WORKER", "1")
+                .env("VERIF_TIER", report.opts.tier.as_str())
+                .stdin(Stdio::null())
+                .stdout(Stdio::null())
+                .stderr(Stdio::null())
+                .spawn()
+                .unwrap_or_else(|e| machinery_failure(&format!("spawn c04 confirmation worker: {e}")));
+            let until = std::time::Instant::now() + Duration::from_secs(4 * WATCHDOG_S + 60);
+            let mut finished = false;
+            while std::time::Instant::now() < until {
+                if let Ok(Some(_)) = confirm.try_wait() {
+                    finished = true;
+                    break;
+                }
+                std::thread::sleep(Duration::from_millis(200));
+            }
+            if finished {
+                report.count("watchdog_fired_under_load_but_the_history_terminates_on_its_own", 1);
+                report.not_exhaustive("a worker exceeded the watchdog under load (its history terminates when run alone); the rest of its shard was not explored");
+                return;
+            }
+            let _ = confirm.kill();
+            let _ = confirm.wait();
+        }
         let what = last_begin["what"].as_str().unwrap_or("?").to_string();
         let fam = last_begin["fault"]["file"].as_str().unwrap_or("none").to_string();
         let has_big = last_begin["history"].as_array().map(|a| a.iter().any(|x| x.as_str().map(|s| s.starts_with("fill1")).unwrap_or(false))).unwrap_or(false);
@@ -656,7 +687,7 @@ pub fn run(opts: Opts) -> i32 {
          is distinct by (history, fault set, phase)",
     );
     report.assume("truth side of the differential = a fresh authority on a copy of the same store whose continuity_streams/ directory is removed before EVERY query (each answer is computed from the log; caches a query rebuilds are never read)");
-    report.assume("every worker runs under a 25 s watchdog per announced step (slowest legitimate step measured < 3 s)");
+    report.assume("every worker runs under a 25 s watchdog per announced step (slowest legitimate step measured < 3 s); a step that exceeds it is re-run alone with 160 s before it is reported as non-termination");
     if let Some(path) = &opts.replay {
         let case = crate::common::load_replay_case(path);
         let hist = case["history"].as_array().or(case["last_announced"]["history"].as_array()).map(|a| a.iter().filter_map(|v| v.as_str()).collect::<Vec<_>>().join(",")).unwrap_or_default();
